@@ -52,7 +52,7 @@ def cut_input(spec, draw, st):
 
 
 def empty_const(spec, draw, st):
-    t = dict(name="empty_const", shape=[0], dtype=draw(st.sampled_from(["int32", "int8", "float32"])), scale=None, zp=None, data=None, own_empty_buffer=True)
+    t = dict(name="empty_const_%d" % len(spec["tensors"]), shape=[0], dtype=draw(st.sampled_from(["int32", "int8", "float32"])), scale=None, zp=None, data=None, own_empty_buffer=True)
     spec["tensors"].append(t)
     idx = len(spec["tensors"]) - 1
     withbias = [(oi, o) for oi, o in enumerate(spec["ops"]) if o["code"] in ("CONV_2D", "DEPTHWISE_CONV_2D", "FULLY_CONNECTED") and len(o["inputs"]) == 3 and o["inputs"][2] >= 0]
@@ -144,6 +144,17 @@ def odd_quant(spec, draw, st):
     return "odd-quant/%s/%s" % (kind, role)
 
 
+def scale_only(spec, draw, st):
+    """an activation (model input/output or an intermediate) or a constant keeps its scale but has no zero-point vector (every vector of the table is optional)"""
+    q = [i for i, T in enumerate(spec["tensors"]) if T.get("scale") is not None and T.get("zp") is not None and not isinstance(T["scale"], list)]
+    pref = [i for i in q if i in spec["inputs"] or i in spec["outputs"]]
+    if not q:
+        return None
+    t = draw(st.sampled_from(pref if pref and draw(st.booleans()) else q))
+    spec["tensors"][t]["zp"] = None
+    return "scale-only/%s" % ("interface" if t in pref else "inner")
+
+
 def shape_signature(spec, draw, st):
     acts = [t for t in _activations(spec) if spec["tensors"][t]["shape"]]
     if not acts:
@@ -158,11 +169,11 @@ def shape_signature(spec, draw, st):
 def dead_op(spec, draw, st):
     acts = [t for t in _activations(spec) if spec["tensors"][t]["dtype"] in ("int8", "uint8", "int16")]
     if not acts or draw(st.integers(0, 3)) == 0:
-        spec["tensors"].append(dict(name="unused", shape=[1, 2, 2, 3], dtype="int8", scale=0.5, zp=0, data=None))
+        spec["tensors"].append(dict(name="unused_%d" % len(spec["tensors"]), shape=[1, 2, 2, 3], dtype="int8", scale=0.5, zp=0, data=None))
         return "dead-op/unused-tensor"
     t = draw(st.sampled_from(acts))
     T = spec["tensors"][t]
-    new = dict(name="dead_out", shape=list(T["shape"]), dtype=T["dtype"], scale=T.get("scale"), zp=T.get("zp"), data=None)
+    new = dict(name="dead_out_%d" % len(spec["tensors"]), shape=list(T["shape"]), dtype=T["dtype"], scale=T.get("scale"), zp=T.get("zp"), data=None)
     spec["tensors"].append(new)
     code = draw(st.sampled_from(["RELU", "LOGISTIC", "ABS"]))
     # keep the operator list topologically ordered: directly after the producer of t (or first)
@@ -208,7 +219,7 @@ def output_is_input(spec, draw, st):
 def wide_dtype(spec, draw, st):
     """element-wise operator on int32 tensors appended to an int32 view of nothing: a fresh int32 model input feeding ADD/MUL/SUB/RELU/MAXIMUM; its result is a model output"""
     shape = draw(st.sampled_from([[1, 4, 4, 8], [1, 8], [3], [1, 1, 1, 16], [2, 3, 4]]))
-    a = dict(name="i32_in", shape=shape, dtype="int32", scale=draw(st.sampled_from([None, 1.0, 0.5])), zp=None, data=None)
+    a = dict(name="i32_in_%d" % len(spec["tensors"]), shape=shape, dtype="int32", scale=draw(st.sampled_from([None, 1.0, 0.5])), zp=None, data=None)
     if a["scale"] is not None:
         a["zp"] = 0
     spec["tensors"].append(a)
@@ -218,12 +229,12 @@ def wide_dtype(spec, draw, st):
     ins = [ai]
     if code in ("ADD", "MUL", "SUB", "MAXIMUM", "MINIMUM"):
         if draw(st.booleans()):
-            b = dict(a, name="i32_const", data=dict(seed=draw(st.integers(0, 1000)), lo=-100000, hi=100000))
+            b = dict(a, name="i32_const_%d" % len(spec["tensors"]), data=dict(seed=draw(st.integers(0, 1000)), lo=-100000, hi=100000))
             spec["tensors"].append(b)
             ins.append(len(spec["tensors"]) - 1)
         else:
             ins.append(ai)
-    o = dict(a, name="i32_out", data=None)
+    o = dict(a, name="i32_out_%d" % len(spec["tensors"]), data=None)
     spec["tensors"].append(o)
     oi = len(spec["tensors"]) - 1
     opts = {"ADD": ("AddOptions", dict(FusedActivationFunction=draw(st.sampled_from([0, 0, 1])))), "MUL": ("MulOptions", dict(FusedActivationFunction=0)),
@@ -244,7 +255,7 @@ def custom_tail(spec, draw, st, n=None):
     names = draw(st.permutations(CUSTOM_NAMES))[: n or draw(st.integers(2, 4))]
     for k, nm in enumerate(names):
         T = spec["tensors"][cur]
-        spec["tensors"].append(dict(name="custom_out_%d" % k, shape=list(T["shape"]), dtype=T["dtype"], scale=T.get("scale"), zp=T.get("zp"), data=None))
+        spec["tensors"].append(dict(name="custom_out_%d_%d" % (k, len(spec["tensors"])), shape=list(T["shape"]), dtype=T["dtype"], scale=T.get("scale"), zp=T.get("zp"), data=None))
         o = len(spec["tensors"]) - 1
         spec["ops"].append(dict(code="CUSTOM", inputs=[cur], outputs=[o], opts=None, version=1, custom_code=nm, custom_options=draw(st.binary(min_size=0, max_size=8)).hex()))
         cur = o
